@@ -105,40 +105,6 @@ fn kani_concrete_playback_c11_slice_len2_8554438794987231280() {
 
 /// Test generated for harness `query::selector::verif_kani::c11_slice_len2` 
 ///
-/// Check for `cover`: "whole array, end absent"
-///
-/// # Warning
-///
-/// Concrete playback tests combined with stubs or contracts is highly
-/// experimental, and subject to change.
-///
-/// The original harness has stubs which are not applied to this test.
-/// This may cause a mismatch of non-deterministic values if the stub
-/// creates any non-deterministic value.
-/// The execution path may also differ, which can be used to refine the stub
-/// logic.
-
-#[test]
-fn kani_concrete_playback_c11_slice_len2_14440860804153719033() {
-    let concrete_vals: Vec<Vec<u8>> = vec![
-        // 0
-        vec![0],
-        // 0
-        vec![0, 0, 0, 0, 0, 0, 0, 0],
-        // 0
-        vec![0],
-        // 0
-        vec![0, 0, 0, 0, 0, 0, 0, 0],
-        // 0
-        vec![0],
-        // 0
-        vec![0, 0, 0, 0, 0, 0, 0, 0],
-    ];
-    kani::concrete_playback_run(concrete_vals, c11_slice_len2);
-}
-
-/// Test generated for harness `query::selector::verif_kani::c11_slice_len2` 
-///
 /// Check for `cover`: "step zero"
 ///
 /// # Warning
